@@ -446,7 +446,47 @@ fn part_siblings(ctx: &Ctx, sink: &mut Sink) {
     }
 }
 
+/// A key function handed to sort_by is the same function as when it is called on the element directly: optional parameters
+/// it does not receive are null, a rest parameter is empty, and a captured name shadowed by a parameter stays shadowed.
+fn part_sort_by_keys(ctx: &Ctx, sink: &mut Sink) {
+    if ctx.shard_i != 0 {
+        return;
+    }
+    let keys = [
+        "key = (x, bias?) => if bias == null then x else 0 - x",
+        "key = (x, ...more) => if len(more) == 0 then x else 0 - x",
+        "key = (x, bias?, ...more) => if bias == null and len(more) == 0 then x else 0 - x",
+        "key = (x, bias?) => [bias, x]",
+        "key = (x, ...more) => [len(more), more, x]",
+        "key = (x, bias?) => x + (bias ?? 0) * -1000",
+        "key = x => x + bias",
+        "key = (x) => x",
+    ];
+    let lists = ["[3, 1, 2]", "[5, 4, 3, 2, 1, 0]", "[1, 2, 3, 4]", "[2, 2, 1, 1, 3, 3, 0]", "[10, -1, 7, 7, 3.5, 0, 22, -8, 4, 4, 9, 1, 6, 2, 8, 5, 11, 13, 12, 15, 14, 17, 16, 19, 18, 21, 20, 23, 25, 24, 27, 26, 29, 28, 31, 30, 33, 32, 35]"];
+    for k in keys.iter() {
+        for l in lists.iter() {
+            let sess = Sess::new();
+            let _ = sess.eval("bias = 100");
+            let _ = sess.eval(k);
+            let _ = sess.eval(&format!("xs = {}", l));
+            let direct = sess.rout(&sess.eval("sort_by(xs, key)"));
+            let wrapped = sess.rout(&sess.eval("sort_by(xs, v => key(v))"));
+            let by_hand = sess.rout(&sess.eval("sort_by(zip(xs via (v => key(v)), xs), p => p[0]) via (p => p[1])"));
+            sink.case(&format!("sortkey|{}|{}", k, l), matches!(direct, ROut::Ok(_)));
+            sink.count("sort_by_key_differentials", 1);
+            if !direct.agrees(&wrapped) || !direct.agrees(&by_hand) {
+                sink.viol(
+                    "call-site sort_by-key differs-from-direct-call",
+                    "a function used as a sort_by key does not order the list by what it returns when called on each element",
+                    json!({"setup": ["bias = 100", k, format!("xs = {}", l)], "sort_by(xs, key)": direct.show(), "sort_by(xs, v => key(v))": wrapped.show(), "decorate-sort-undecorate": by_hand.show()}),
+                );
+            }
+        }
+    }
+}
+
 pub fn run(ctx: &Ctx, sink: &mut Sink) {
+    part_sort_by_keys(ctx, sink);
     part_siblings(ctx, sink);
     part_call_sites(ctx, sink);
     part_random_closures(ctx, sink);
